@@ -26,6 +26,7 @@ import (
 	"strconv"
 	"strings"
 	"sync"
+	"sync/atomic"
 	"time"
 
 	corev1 "k8s.io/api/core/v1"
@@ -33,6 +34,9 @@ import (
 	metav1 "k8s.io/apimachinery/pkg/apis/meta/v1"
 	kruntime "k8s.io/apimachinery/pkg/runtime"
 	"k8s.io/apimachinery/pkg/util/intstr"
+	"k8s.io/apimachinery/pkg/watch"
+	kubefake "k8s.io/client-go/kubernetes/fake"
+	clienttesting "k8s.io/client-go/testing"
 
 	"istio.io/istio/pilot/pkg/model"
 	"istio.io/istio/pilot/pkg/serviceregistry/kube/controller"
@@ -106,12 +110,14 @@ type world struct {
 	held    bool
 	gate    chan struct{}
 	rv      int
-	present map[string]bool // "kind/ns/name" written and not deleted
+	present map[string]bool // "kind/ns/name" written and not deleted (API server view)
+	visible map[string]bool // pods the pod informer knows (its field selector hides Failed pods)
 }
 
 func newWorld(objs ...kruntime.Object) *world {
-	w := &world{t: &failer{}, present: map[string]bool{}}
+	w := &world{t: &failer{}, present: map[string]bool{}, visible: map[string]bool{}}
 	w.client = kubelib.NewFakeClient(objs...)
+	podWatch := installPodFieldSelector(w.client.Kube().(*kubefake.Clientset))
 	w.index = model.NewEndpointIndex(model.DisabledCache{})
 	fc, _ := controller.NewFakeControllerWithOptions(w.t, controller.FakeControllerOptions{
 		Client:     w.client,
@@ -119,6 +125,7 @@ func newWorld(objs ...kruntime.Object) *world {
 	})
 	w.fc = fc
 	quiet.Silence()
+	spinUntil("pod watch", podWatch)
 	w.drain()
 	return w
 }
@@ -191,7 +198,7 @@ func (w *world) release() {
 
 // write performs one client write with the queue blocked and waits for the informer to enqueue
 // exactly one task for it.
-func (w *world) write(do func() error) error {
+func (w *world) write(do func() error, events int) error {
 	wasHeld := w.held
 	w.hold()
 	before := controller.VerifC15Pending(w.fc.Controller)
@@ -201,11 +208,121 @@ func (w *world) write(do func() error) error {
 		}
 		return err
 	}
-	spinUntil("informer event", func() bool { return controller.VerifC15Pending(w.fc.Controller) >= before+1 })
+	spinUntil("informer event", func() bool { return controller.VerifC15Pending(w.fc.Controller) >= before+events })
 	if !wasHeld {
 		w.release()
 	}
 	return nil
+}
+
+// ---------------------------------------------------------------- the pod informer's field selector
+
+// The controller's pod informer lists and watches with the field selector `status.phase!=Failed`.
+// client-go's fake object tracker ignores field selectors, so the API server's behaviour is supplied
+// here: Failed pods are left out of the list, and a watched pod that turns Failed is delivered as a
+// DELETED event carrying the new (Failed) object - the production path for evicted pods.
+const failedSelector = "status.phase!=Failed"
+
+func podMatches(o kruntime.Object) bool {
+	p, ok := o.(*corev1.Pod)
+	return ok && p.Status.Phase != corev1.PodFailed
+}
+
+type selWatch struct {
+	src  watch.Interface
+	out  chan watch.Event
+	stop chan struct{}
+	once sync.Once
+}
+
+func (s *selWatch) ResultChan() <-chan watch.Event { return s.out }
+func (s *selWatch) Stop()                          { s.once.Do(func() { close(s.stop); s.src.Stop() }) }
+
+func newSelWatch(src watch.Interface) *selWatch {
+	s := &selWatch{src: src, out: make(chan watch.Event, 100), stop: make(chan struct{})}
+	go func() {
+		defer close(s.out)
+		gone := map[string]bool{} // keys whose last delivered state did not match the selector
+		for ev := range src.ResultChan() {
+			p, ok := ev.Object.(*corev1.Pod)
+			if !ok {
+				continue
+			}
+			key := p.Namespace + "/" + p.Name
+			var send *watch.Event
+			switch ev.Type {
+			case watch.Added, watch.Modified:
+				if podMatches(p) {
+					t := ev.Type
+					if gone[key] {
+						t = watch.Added
+					}
+					delete(gone, key)
+					send = &watch.Event{Type: t, Object: ev.Object}
+				} else {
+					if !gone[key] && ev.Type == watch.Modified {
+						send = &watch.Event{Type: watch.Deleted, Object: ev.Object}
+					}
+					gone[key] = true
+				}
+			case watch.Deleted:
+				if !gone[key] {
+					send = &ev
+				}
+				delete(gone, key)
+			default:
+				send = &ev
+			}
+			if send != nil {
+				select {
+				case s.out <- *send:
+				case <-s.stop:
+					return
+				}
+			}
+		}
+	}()
+	return s
+}
+
+// installPodFieldSelector returns a function that reports whether the filtered pod watch is established (a write
+// made before that would be lost between the informer's list and its watch).
+func installPodFieldSelector(cs *kubefake.Clientset) func() bool {
+	var watching atomic.Bool
+	gvr := corev1.SchemeGroupVersion.WithResource("pods")
+	gvk := corev1.SchemeGroupVersion.WithKind("Pod")
+	tracker := cs.Tracker()
+	cs.PrependReactor("list", "pods", func(a clienttesting.Action) (bool, kruntime.Object, error) {
+		la, ok := a.(clienttesting.ListAction)
+		if !ok || la.GetListRestrictions().Fields == nil || la.GetListRestrictions().Fields.String() != failedSelector {
+			return false, nil, nil
+		}
+		obj, err := tracker.List(gvr, gvk, a.GetNamespace())
+		if err != nil {
+			return true, nil, err
+		}
+		l := obj.(*corev1.PodList)
+		out := &corev1.PodList{ListMeta: l.ListMeta}
+		for i := range l.Items {
+			if podMatches(&l.Items[i]) {
+				out.Items = append(out.Items, l.Items[i])
+			}
+		}
+		return true, out, nil
+	})
+	cs.PrependWatchReactor("pods", func(a clienttesting.Action) (bool, watch.Interface, error) {
+		wa, ok := a.(clienttesting.WatchAction)
+		if !ok || wa.GetWatchRestrictions().Fields == nil || wa.GetWatchRestrictions().Fields.String() != failedSelector {
+			return false, nil, nil
+		}
+		w, err := tracker.Watch(gvr, a.GetNamespace())
+		if err != nil {
+			return true, nil, err
+		}
+		watching.Store(true)
+		return true, newSelWatch(w), nil
+	})
+	return watching.Load
 }
 
 func (w *world) nextRV() string { w.rv++; return strconv.Itoa(w.rv) }
@@ -371,7 +488,17 @@ func mkNode(f []string) *corev1.Node {
 	return n
 }
 
-var arity = map[string]int{"svc": 7, "delsvc": 3, "slice": 7, "delslice": 3, "pod": 10, "delpod": 3, "node": 4, "delnode": 2}
+// ns <name> <traffic distribution: close|~>
+func mkNamespace(f []string) *corev1.Namespace {
+	n := &corev1.Namespace{ObjectMeta: metav1.ObjectMeta{Name: wire.Dec(f[1])}}
+	if f[2] == "close" {
+		n.Annotations = map[string]string{"networking.istio.io/traffic-distribution": "PreferClose"}
+	}
+	return n
+}
+
+var arity = map[string]int{"svc": 7, "delsvc": 3, "slice": 7, "delslice": 3, "pod": 10, "delpod": 3, "node": 4, "delnode": 2,
+	"ns": 3, "delns": 2}
 
 func objKey(f []string) string {
 	switch f[0] {
@@ -383,6 +510,8 @@ func objKey(f []string) string {
 		return "pod/" + f[1] + "/" + f[2]
 	case "node", "delnode":
 		return "node/" + f[1]
+	case "ns", "delns":
+		return "ns/" + f[1]
 	}
 	return ""
 }
@@ -398,7 +527,16 @@ func (w *world) apply(f []string) bool {
 	ctx := context.Background()
 	k := w.client.Kube()
 	var do func() error
+	events := 1
 	switch f[0] {
+	case "ns":
+		o := mkNamespace(f)
+		o.ResourceVersion = w.nextRV()
+		if exists {
+			do = func() error { _, e := k.CoreV1().Namespaces().Update(ctx, o, metav1.UpdateOptions{}); return e }
+		} else {
+			do = func() error { _, e := k.CoreV1().Namespaces().Create(ctx, o, metav1.CreateOptions{}); return e }
+		}
 	case "svc":
 		o := mkService(f)
 		o.ResourceVersion = w.nextRV()
@@ -429,6 +567,10 @@ func (w *world) apply(f []string) bool {
 		} else {
 			do = func() error { _, e := k.CoreV1().Pods(o.Namespace).Create(ctx, o, metav1.CreateOptions{}); return e }
 		}
+		// the informer hides Failed pods: no event unless a known pod turns Failed (DELETE with the new object)
+		if o.Status.Phase == corev1.PodFailed && !w.visible[key] {
+			events = 0
+		}
 	case "node":
 		o := mkNode(f)
 		o.ResourceVersion = w.nextRV()
@@ -437,15 +579,20 @@ func (w *world) apply(f []string) bool {
 		} else {
 			do = func() error { _, e := k.CoreV1().Nodes().Create(ctx, o, metav1.CreateOptions{}); return e }
 		}
-	case "delsvc", "delslice", "delpod", "delnode":
+	case "delsvc", "delslice", "delpod", "delnode", "delns":
 		if !exists {
 			return false
 		}
 		ns, name := "", wire.Dec(f[1])
-		if f[0] != "delnode" {
+		if f[0] != "delnode" && f[0] != "delns" {
 			ns, name = wire.Dec(f[1]), wire.Dec(f[2])
 		}
+		if f[0] == "delpod" && !w.visible[key] {
+			events = 0
+		}
 		switch f[0] {
+		case "delns":
+			do = func() error { return k.CoreV1().Namespaces().Delete(ctx, name, metav1.DeleteOptions{}) }
 		case "delsvc":
 			do = func() error { return k.CoreV1().Services(ns).Delete(ctx, name, metav1.DeleteOptions{}) }
 		case "delslice":
@@ -458,13 +605,17 @@ func (w *world) apply(f []string) bool {
 	default:
 		return false
 	}
-	if err := w.write(do); err != nil {
+	if err := w.write(do, events); err != nil {
 		panic(failNow{"client write failed: " + err.Error()})
 	}
 	if strings.HasPrefix(f[0], "del") {
 		delete(w.present, key)
+		delete(w.visible, key)
 	} else {
 		w.present[key] = true
+		if f[0] == "pod" {
+			w.visible[key] = f[4] != "F"
+		}
 	}
 	return true
 }
@@ -539,7 +690,7 @@ func resTok(r model.Resolution) string {
 func showService(s *model.Service) string {
 	ports := make([]string, 0, len(s.Ports))
 	for _, p := range s.Ports {
-		ports = append(ports, p.Name+":"+strconv.Itoa(p.Port))
+		ports = append(ports, p.Name+":"+strconv.Itoa(p.Port)+":"+string(p.Protocol))
 	}
 	td := "any"
 	if s.Attributes.TrafficDistribution != model.TrafficDistributionAny {
@@ -652,7 +803,7 @@ func (c *caseRun) close() {
 	}
 }
 
-var kinds = []string{"node", "svc", "pod", "slice"}
+var kinds = []string{"node", "ns", "svc", "pod", "slice"}
 
 // finalLines returns the upsert lines of the live objects, kinds in the given order, keys sorted.
 func (c *caseRun) finalLines(order []string) [][]string {
@@ -711,6 +862,8 @@ func (c *caseRun) literalColdView() string {
 			objs = append(objs, mkPod(f))
 		case "node":
 			objs = append(objs, mkNode(f))
+		case "ns":
+			objs = append(objs, mkNamespace(f))
 		}
 	}
 	w := newWorld(objs...)
@@ -845,10 +998,9 @@ func execOps(stream, in, outp string) {
 // ---------------------------------------------------------------- oracle: the property itself
 
 var coldOrders = [][]string{
-	{"node", "svc", "pod", "slice"},
-	{"slice", "pod", "svc", "node"},
-	{"pod", "slice", "node", "svc"},
-	{"svc", "slice", "pod", "node"},
+	{"node", "ns", "svc", "pod", "slice"},
+	{"slice", "pod", "svc", "ns", "node"},
+	{"pod", "slice", "node", "svc", "ns"},
 }
 
 func oracleCase(cs [][]string) []string {
